@@ -570,6 +570,164 @@ def s12(ctx, rid):
     c05.option_reaches_config(ctx, rid, 'max_dirty_bytes_before_sync', 'set_max_dirty_bytes_before_sync')
 
 
+def _tested_calls(f, operand, depth=10, prog=None):
+    """names of the calls the tested scalar comes from, following copies and *field-precise* tuple / struct projections
+    (`let (a, b) = (f(), g())` then `if b`: only g; also when the pair is built by a helper of this crate and unwrapped by `?`)"""
+    out = set()
+    seen = set()
+
+    def visit(o, d, pend):
+        """pend: the innermost user-level field selection still to be applied (index or None)"""
+        if d <= 0:
+            return
+        p = core.op_place(o) if isinstance(o, dict) else None
+        if p is None:
+            return
+        l, proj = p[0], [e for e in p[1] if e != '*']
+        flds = [e['f'] for e in proj if isinstance(e, dict) and 'f' in e]
+        downcast = any(isinstance(e, dict) and 'v' in e for e in proj)
+        if flds and not downcast:
+            pend = flds[-1] if pend is None else pend
+        k = (l, pend)
+        if k in seen:
+            return
+        seen.add(k)
+        for (bb, si, kind, payload) in [x for x in f.defs().get(l, []) if x[2] in ('assign', 'call')]:
+            if kind == 'call':
+                c = payload
+                ti = core.fwd_transparent(c)
+                if ti is not None and c.args:
+                    for x in (ti if isinstance(ti, tuple) else (ti,)):
+                        if x < len(c.args):
+                            visit(c.args[x], d - 1, pend)
+                    continue
+                tg = [t for t in prog.resolve(c) if t in prog.fns] if prog is not None else []
+                hit = False
+                if tg and pend is not None and d > 3:
+                    for t in tg:
+                        for gid in prog.family(t):
+                            g = prog.fns[gid]
+                            for b in g.blocks:
+                                for st in b['s']:
+                                    if st['k'] == 'a' and st['r']['k'] == 'agg' and st['r'].get('ak') in ('tuple', 'adt') and len(st['r']['ops']) > pend and len(st['r']['ops']) >= 2 and st['r'].get('adt') not in ('std::result::Result', 'std::option::Option', 'std::task::Poll'):
+                                        sub = _tested_calls(g, st['r']['ops'][pend], d - 3, prog)
+                                        if sub:
+                                            out.update(sub)
+                                            hit = True
+                if not hit:
+                    out.add(c.name)
+                continue
+            r = payload
+            if r['k'] in ('use', 'cast'):
+                visit(r['o'], d - 1, pend)
+            elif r['k'] == 'un':
+                visit(r['o'], d - 1, pend)
+            elif r['k'] == 'agg':
+                if pend is not None and r.get('ak') in ('tuple', 'adt') and len(r['ops']) >= 2 and pend < len(r['ops']) and r.get('adt') not in ('std::result::Result', 'std::option::Option', 'std::task::Poll'):
+                    visit(r['ops'][pend], d - 1, None)
+                else:
+                    for op in r['ops']:
+                        visit(op, d - 1, pend)
+            elif r['k'] == 'ref':
+                visit({'c': r['p']}, d - 1, pend)
+    visit(operand, depth, None)
+    return out
+
+
+def _value_calls(f, ogs, depth=3):
+    out = set()
+    for o in ogs:
+        if o.kind == 'call':
+            out.add(o.data.name)
+    return out
+
+
+def s13(ctx, rid):
+    """whether the sync request is posted after an append depends on the dirty-byte trigger alone: in the client paths the only
+    decisions between the append and `try_fsync_data` are the trigger result and error propagation.  A request that is also
+    conditional on something else (e.g. posted only when no rotation request was posted) is suppressed exactly when that other
+    condition holds for a long time - the un-synced bytes then grow without bound."""
+    prog = ctx.prog
+    n = 0
+    for f in prog.fns.values():
+        if f.file != 'src/storage/core.rs' or not f.is_coroutine:
+            continue
+        sends = [c for c in f.calls if c.bb in f.reachable() and c.name == 'try_fsync_data' and c.name != 'poll']
+        for sc in sends:
+            n += 1
+            key = 'sync-request-depends-on-trigger-only|%s' % prog.fns[f.id].root
+            bad = None
+            trig = [c for c in f.calls if c.name == 'should_try_fsync' and c.bb in f.reachable()]
+            # only decisions taken after the trigger was evaluated (i.e. after the append) matter; when the trigger is evaluated
+            # in a helper, every decision after the helper's call does
+            after = set()
+            for tcall in trig:
+                after |= f.reach_from(f.after(tcall.bb))
+            if not trig:
+                for c in f.calls:
+                    if c.bb in f.reachable() and c.name != 'poll' and any(t in prog.fns and any(x.name == 'should_try_fsync' for g in prog.family(t) for x in prog.fns[g].calls) for t in prog.resolve(c)):
+                        after |= f.reach_from(f.after(c.bb))
+            for i in core.deciding_switches(f, sc.bb):
+                if i not in after:
+                    continue
+                kind, info = core.switch_kind(f, i)
+                if kind in ('try', 'result'):
+                    continue
+                if kind == 'value':
+                    names = _tested_calls(f, f.blocks[i]['t']['o'], 40, prog)
+                    if names & {'should_try_fsync'} and not (names - {'should_try_fsync', 'poll', 'branch', 'into_future'}):
+                        continue
+                    # a field of the outcome struct computed by the trigger
+                    if any(o.kind == 'field' and o.data[1] in ('try_fsync', 'need_fsync') for o in core.origins(f, f.blocks[i]['t']['o'], stop_fields=True)):
+                        continue
+                    bad = (i, sorted(names) or [repr(o)[:40] for o in info][:2])
+                    break
+                if kind in ('option', 'enum'):
+                    bad = (i, [info[:60]])
+                    break
+            if bad:
+                ctx.bad(rid, key, f.where(bad[0]), 'posting the sync request also depends on %s: while that condition holds the request is never sent although the dirty-byte limit is exceeded' % bad[1])
+            else:
+                ctx.ok(rid, key, sc.where(), 'only the dirty-byte trigger (and error propagation) decides')
+    if n < 2:
+        raise core.AnchorLost('sync request sites in the client paths: %d' % n)
+
+
+def s14(ctx, rid):
+    """the worker starts the sync task for every sync request it receives: between the TryFsyncData arm of process_msg and
+    try_run_fsync_task only the message kind, the message predicate and error propagation decide (no debounce, no rate limit -
+    a dropped request is never re-armed, so the bytes above the limit stay un-synced until some later client action)"""
+    prog = ctx.prog
+    n = 0
+    for f in prog.fns.values():
+        if not f.file.endswith('observer_worker.rs') or not f.is_coroutine or not f.root.endswith('::process_msg'):
+            continue
+        for c in f.calls:
+            if c.bb not in f.reachable() or c.name != 'try_run_fsync_task':
+                continue
+            n += 1
+            key = 'sync-request-always-served|%s' % f.root
+            bad = None
+            for i in core.deciding_switches(f, c.bb):
+                kind, info = core.switch_kind(f, i)
+                if kind in ('try', 'result'):
+                    continue
+                if kind == 'enum' and ('OperationType' in info or 'Msg' in info):
+                    continue
+                if kind == 'value':
+                    names = _value_calls(f, info)
+                    if names and not (names - {'predicate_wrapper', 'poll', 'into_future', 'not'}):
+                        continue
+                bad = (i, info if isinstance(info, str) else sorted(_value_calls(f, info)))
+                break
+            if bad:
+                ctx.bad(rid, key, f.where(bad[0]), 'a received sync request is served only if %s: requests that arrive while the condition is false are dropped and nothing re-arms them' % (bad[1],))
+            else:
+                ctx.ok(rid, key, c.where(), 'every TryFsyncData message reaches try_run_fsync_task')
+    if n < 1:
+        raise core.AnchorLost('try_run_fsync_task in process_msg: %d' % n)
+
+
 RULES = [
     Rule('C12.S1', 'every ok-return of the blob constructor is preceded by the header append and then a completed ok file sync', s1, 2),
     Rule('C12.S2', 'every index dump / index-file construction call is dominated by an ok sync of the blob file (in the function or in every caller)', s2, 3),
@@ -583,5 +741,7 @@ RULES = [
     Rule('C12.S10', 'the worker skips starting the sync task only while a sync task is really running (decided by JoinHandle::is_finished)', s10, 1),
     Rule('C12.S11', 'the sync trigger is a function of the current dirty-byte level, the limit and the in-progress flag only (level-triggered)', s11, 3),
     Rule('C12.S12', 'the configured dirty-byte limit reaches the configuration unchanged for every value', s12, 3),
+    Rule('C12.S13', 'posting the sync request after an append depends on the dirty-byte trigger alone', s13, 2),
+    Rule('C12.S14', 'the worker serves every sync request it receives (no debounce between the message arm and the task start)', s14, 1),
     Rule('C12.S8', 'every boolean in-progress / request-pending flag that was set is released on every exit (drop guard or explicit clear on all paths): the sync it guards is never suppressed for ever', s8, 1),
 ]
